@@ -202,6 +202,10 @@ func (cl *Client) WriteLoop() {
 					_ = cl.flushOutbuf() // what earlier writes buffered must not be stranded behind a failed write
 				}
 				cl.Unlock()
+				if errors.Is(err, packets.ErrPacketTooLarge) && pk.FixedHeader.Type == packets.Publish {
+					atomic.AddInt64(&cl.ops.info.MessagesDropped, 1)
+					cl.ops.hooks.OnPublishDropped(cl, *pk) // the client's Maximum Packet Size refuses the message
+				}
 			}
 			atomic.AddInt32(&cl.State.outboundQty, -1)
 		case <-cl.State.open.Done():
